@@ -38,6 +38,9 @@ int main(void)
 		al = strtok(NULL, " \n");
 		while ((tok = strtok(NULL, " \n")) && nb < MAXB) {
 			int n = strcmp(tok, "-") ? (int)strlen(tok) / 2 : 0;
+			if (tok[0] == '=') {	/* =j : the very buffer of operand j once more (aliased list entries) */
+				int jx = atoi(tok + 1); base[nb] = NULL; buf[nb] = buf[jx]; blen[nb] = blen[jx]; boff[nb] = 0; nb++; continue;
+			}
 			int a = al[nb] ? al[nb] - '0' : 0;
 			/* malloc is 16-aligned: GUARD bytes + a bytes of guard, then the buffer, ending exactly at the block end */
 			base[nb] = malloc(GUARD + a + n);
@@ -76,7 +79,7 @@ int main(void)
 			}
 		}
 		printf("\n");
-		for (i = 0; i < nb; i++) free(base[i]);
+		for (i = 0; i < nb; i++) if (base[i]) free(base[i]);
 	}
 	return 0;
 }
